@@ -19,7 +19,7 @@ import configs
 import docs
 import tok
 
-URL_OK = re.compile(r"^[A-Za-z0-9;/?:@&=+$,\-_.!~*'()#%]*$")
+URL_OK = re.compile(r"[A-Za-z0-9;/?:@&=+$,\-_.!~*'()#%]*\Z")
 SCHEMES = ["javascript", "vbscript", "file", "data", "JaVaScRiPt", "VBScript", "FILE", "Data", "data:image/png;base64,",
            "data:image/svg+xml;", "data:text/html,", "http", "mailto", "ftp", "x-y"]
 
@@ -47,8 +47,14 @@ def url_text(rng):
     sch = rng.choice(SCHEMES)
     pre = rng.choice(["", "", "", " ", "\t", "&#9;", "&#10;", "&#x1;", "\x01", "%20", "&Tab;", "&NewLine;", " "])
     colon = rng.choice([":", ":", ":", "&colon;", "&#58;", "&#x3a;", "%3a", "\\:"])
-    rest = rng.choice(["alert(1)", "//x.y/z", "a b", "é\"<>`", "x//data:image/png;", "%41%zz%", "//h/p?q=1#f", "", "x'y", "(a(b)c)"])
-    return pre + spell_scheme(rng, sch) + colon + rest
+    rest = rng.choice(["alert(1)", "//x.y/z", "a b", "é\"<>`", "x//data:image/png;", "%41%zz%", "//h/p?q=1#f", "", "x'y", "(a(b)c)",
+                       "image/png;alert(1)", "image/gif;base64,x", "IMAGE/webp;x", "image/jpeg;", "text/html,x"])
+    # blanks / controls that can only arrive through a character reference, at the very end of the destination
+    post = rng.choice(["", "", "", "&#10;", "&#x0A;", "&NewLine;", "&#9;", "&Tab;", "&#13;", "&#32;", "&#xA0;", "&#12;", "&#x85;", "&#x2028;"])
+    if rng.random() < 0.2:
+        # a plain path / word, no scheme at all
+        return pre + rng.choice(["foo", "/img.png", "/target", "a/b?c=d&e=f", "x.y/z#frag", "(p)", "~u/$v,w"]) + post
+    return pre + spell_scheme(rng, sch) + colon + rest + post
 
 
 def producer_doc(rng):
